@@ -30,7 +30,7 @@ func New(seed int64) *G {
 		// outside the exact model (skipped by the validators when used numerically)
 		Elems: []string{"a", "b", "c", "ab", "a-1"},
 		Attrs: []string{"a", "b", "id", "ab"},
-		Texts: []string{"1", "2", "10", "0.5", "x", "ab", " 1 ", "-3", "t", "abababab", "aaaa", "a\tb", "0.1",
+		Texts: []string{"1", "2", "10", "0.5", "x", "ab", " 1 ", "-3", "t", "abababab", "aaaa", "a\tb", "0.1", "\u00a07", "\f7", "7\u2003",
 			"the quick brown fox jumps over the lazy dog 0123456789"},
 	}
 }
